@@ -1,6 +1,7 @@
 package main
 
 import (
+	"fmt"
 	"net"
 	"net/netip"
 	"strconv"
@@ -27,7 +28,9 @@ var (
 	ip6s = []netip.Addr{
 		netip.MustParseAddr("fe80::1:5"), netip.MustParseAddr("fe80::1:6"), netip.MustParseAddr("2001:db8::5"), netip.MustParseAddr("2001:db8::6"),
 	}
-	ip6odd = []netip.Addr{netip.MustParseAddr("ff02::1"), netip.MustParseAddr("::"), netip.MustParseAddr("::1"), lib.RouterLLA}
+	ip6odd    = []netip.Addr{netip.MustParseAddr("ff02::1"), netip.MustParseAddr("::"), netip.MustParseAddr("::1"), lib.RouterLLA}
+	hostnames = []string{"alpha", "beta-pc", "gamma7", "Delta Mac", "e"}
+	zero4     = netip.MustParseAddr("0.0.0.0")
 )
 
 type gen struct {
@@ -45,6 +48,7 @@ func (g *gen) mac() net.HardwareAddr {
 	}
 	return macs[g.rng.Intn(len(macs))]
 }
+func (g *gen) umac() net.HardwareAddr { return macs[g.rng.Intn(len(macs))] }
 func (g *gen) ip4() netip.Addr {
 	if g.rng.Chance(20) {
 		return ip4odd[g.rng.Intn(len(ip4odd))]
@@ -57,6 +61,7 @@ func (g *gen) ip6() netip.Addr {
 	}
 	return ip6s[g.rng.Intn(len(ip6s))]
 }
+func (g *gen) name() string { return hostnames[g.rng.Intn(len(hostnames))] }
 
 // plain traffic frames that only exercise Parse
 func (g *gen) arp() []byte {
@@ -96,17 +101,19 @@ func (g *gen) ip6frame() []byte {
 	return lib.MkEther(lib.RouterMAC, g.mac(), 0x86dd, lib.MkIP6(src, dst, next, 64, pl))
 }
 
+func (g *gen) anyKey() string {
+	if g.rng.Chance(70) {
+		return ipKey(ip4s[g.rng.Intn(len(ip4s))])
+	}
+	return ipKey(ip6s[g.rng.Intn(len(ip6s))])
+}
+
 func (g *gen) purgeTok() string {
 	n := 1 + g.rng.Intn(3)
 	ks := make([]string, 0, n)
 	seen := map[string]bool{}
 	for i := 0; i < n; i++ {
-		var k string
-		if g.rng.Chance(70) {
-			k = ipKey(ip4s[g.rng.Intn(len(ip4s))])
-		} else {
-			k = ipKey(ip6s[g.rng.Intn(len(ip6s))])
-		}
+		k := g.anyKey()
 		if !seen[k] {
 			seen[k] = true
 			ks = append(ks, k)
@@ -121,8 +128,501 @@ func (g *gen) scribble() (string, string) {
 	return strconv.Itoa(fill), strconv.Itoa(stp)
 }
 
-// tableHistory: ARP/IPv4/IPv6 traffic creating hosts, with dumps and purges in between.
-func (g *gen) tableHistory(depth int, arpOnly bool) []string {
+// ---------------------------------------------------------------- history builder with a dry run
+
+// client is what a DHCP client remembers between its messages
+type client struct {
+	mac   net.HardwareAddr
+	cid   []byte
+	name  string
+	xid   []byte
+	offer netip.Addr // last OFFER
+	ip    netip.Addr // last ACK
+}
+
+// hist builds one history; every operation is applied to a real library instance (the dry run)
+// as it is generated, which is where the DHCP oracle fields (reply type, yiaddr) come from and how
+// later messages (REQUEST for the offered address, renewals) are made plausible.
+type hist struct {
+	g       *gen
+	dry     *env
+	toks    []string
+	clients []*client
+	known4  []netip.Addr // LAN addresses handed out by the server or seen
+}
+
+func (g *gen) newHist() *hist {
+	f, s := g.scribble()
+	h := &hist{g: g, dry: newEnv(), toks: []string{f, s}}
+	for i, m := range macs {
+		c := &client{mac: m}
+		switch i % 3 {
+		case 1:
+			c.cid = append([]byte{1}, m...)
+		case 2:
+			c.cid = []byte{0xde, 0xad, byte(i), 0xbe, 0xef}
+		}
+		c.name = hostnames[i%len(hostnames)]
+		h.clients = append(h.clients, c)
+	}
+	return h
+}
+
+func (h *hist) done() []string {
+	h.dry.close()
+	return h.toks
+}
+
+// add applies a finished token to the dry run and records it; returns the projected output.
+func (h *hist) add(tok string) string {
+	ops, ok := parseOps([]string{tok})
+	if !ok {
+		panic("bad token " + tok)
+	}
+	pj, _ := h.dry.apply(&ops[0], nil, false, 0, 0)
+	h.toks = append(h.toks, tok)
+	return pj
+}
+
+func (h *hist) plain() {
+	var f []byte
+	switch c := h.g.rng.Intn(100); {
+	case c < 50:
+		f = h.g.arp()
+	case c < 75:
+		f = h.g.ip4frame()
+	default:
+		f = h.g.ip6frame()
+	}
+	h.add("p:" + lib.Hex(f))
+}
+
+func (h *hist) control() {
+	switch c := h.g.rng.Intn(100); {
+	case c < 35:
+		h.add("q")
+	case c < 60:
+		h.add(h.g.purgeTok())
+	case c < 85:
+		h.add("o:" + h.g.anyKey())
+	default:
+		// hunt an address that at most one lease holds (findByIP walks a Go map)
+		if len(h.known4) > 0 {
+			a := h.known4[h.g.rng.Intn(len(h.known4))]
+			n := 0
+			for _, l := range h.dry.dhcp.VerifLeases() {
+				if l.Addr.IP == a {
+					n++
+				}
+			}
+			if n <= 1 {
+				h.add("u:" + ipKey(a))
+			}
+		}
+	}
+}
+
+// dhcp emits one DHCP message of a client and fills the oracle fields from the dry run.
+func (h *hist) dhcp() {
+	g := h.g
+	c := h.clients[g.rng.Intn(len(h.clients))]
+	sp := dhcpSpec{mac: c.mac, srcIP: zero4, bcast: g.rng.Bool()}
+	if g.rng.Chance(75) {
+		sp.cid = c.cid
+	} else if g.rng.Chance(50) {
+		sp.cid = h.clients[g.rng.Intn(len(h.clients))].cid // somebody else's client id
+	}
+	if g.rng.Chance(70) {
+		sp.name = c.name
+	} else if g.rng.Chance(50) {
+		sp.name = g.name()
+	}
+	newXID := func() []byte { return []byte{0x10, byte(g.rng.Intn(4)), g.rng.Byte(), g.rng.Byte()} }
+	switch k := g.rng.Intn(100); {
+	case k < 35 || c.xid == nil: // DISCOVER
+		sp.typ = 1
+		if c.xid == nil || g.rng.Chance(70) {
+			c.xid = newXID()
+		}
+		sp.xid = c.xid
+		switch g.rng.Intn(4) {
+		case 0:
+			sp.reqip = ip4s[g.rng.Intn(len(ip4s))]
+		case 1:
+			sp.reqip = zero4
+		}
+	case k < 60: // REQUEST selecting our offer
+		sp.typ = 3
+		sp.xid = c.xid
+		sp.server = lib.HostIP4
+		sp.reqip = c.offer
+		if !c.offer.IsValid() || g.rng.Chance(10) {
+			sp.reqip = ip4s[g.rng.Intn(len(ip4s))]
+		}
+	case k < 70: // REQUEST selecting another server
+		sp.typ = 3
+		sp.xid = c.xid
+		sp.server = lib.RouterIP4
+		if g.rng.Chance(80) {
+			sp.reqip = ip4s[g.rng.Intn(len(ip4s))]
+		}
+	case k < 82: // REQUEST renewing
+		sp.typ = 3
+		sp.xid = newXID()
+		if c.ip.IsValid() && g.rng.Chance(85) {
+			sp.ciaddr, sp.srcIP = c.ip, c.ip
+		} else if g.rng.Chance(50) {
+			sp.ciaddr = ip4s[g.rng.Intn(len(ip4s))]
+			sp.srcIP = sp.ciaddr
+		}
+	default: // REQUEST rebooting
+		sp.typ = 3
+		sp.xid = newXID()
+		if c.ip.IsValid() && g.rng.Chance(60) {
+			sp.reqip = c.ip
+		} else {
+			sp.reqip = ip4s[g.rng.Intn(len(ip4s))]
+		}
+	}
+	frame, cidLoc, nameLoc, reqLoc, cls := mkDHCP(sp, g.rng)
+	if g.rng.Chance(8) {
+		// an OFFER of the LAN's own DHCP server (router) to this client, seen on the client port
+		sp.typ, sp.server, sp.xid = 2, lib.RouterIP4, newXID()
+		sp.reqip, sp.ciaddr, sp.srcIP = netip.Addr{}, netip.Addr{}, lib.RouterIP4
+		frame, cidLoc, nameLoc, _, _ = mkDHCP(sp, g.rng)
+		// server -> client: ports 67 -> 68, from the router, yiaddr filled in
+		yi := ip4s[g.rng.Intn(len(ip4s))].As4()
+		copy(frame[6:12], lib.RouterMAC)
+		frame[34], frame[35], frame[36], frame[37] = 0, 67, 0, 68
+		frame[dhcpOff] = 2
+		copy(frame[dhcpOff+16:dhcpOff+20], yi[:])
+		cls, reqLoc = 0, loc(dhcpOff+16, 4)
+	}
+	tok := func(res int, yi string) string {
+		// Lease.Addr.IP of this client's lease after the call (server-side decision: oracle)
+		key := sp.cid
+		if key == nil {
+			key = sp.mac
+		}
+		lip := "-"
+		for _, l := range h.dry.dhcp.VerifLeases() {
+			if string(l.ClientID) == string(key) && l.Addr.IP.IsValid() {
+				lip = ipKey(l.Addr.IP)
+			}
+		}
+		return fmt.Sprintf("d:%s:%d:%s:%s:%s:%d:%d:%s:%s", lib.Hex(frame), sp.typ, cidLoc, nameLoc, reqLoc, cls, res, yi, lip)
+	}
+	// dry run with a provisional token, then fix the oracle fields
+	ops, _ := parseOps([]string{tok(0, "-")})
+	pj, _ := h.dry.apply(&ops[0], nil, false, 0, 0)
+	res, yi := 0, "-"
+	if i := strings.Index(pj, "R("); i >= 0 {
+		f := strings.Split(strings.TrimSuffix(pj[i+2:strings.Index(pj[i:], ")")+i], ")"), ",")
+		if len(f) == 4 {
+			res = atoi(f[0])
+			if res == 2 || res == 5 {
+				yi = f[3]
+				a, _ := netip.AddrFromSlice(lib.UnHex(yi))
+				if res == 2 {
+					c.offer = a
+				} else {
+					c.ip = a
+				}
+				h.known4 = append(h.known4, a)
+			}
+		}
+	}
+	h.toks = append(h.toks, tok(res, yi))
+}
+
+func (h *hist) ra() {
+	g := h.g
+	sp := raSpec{srcMAC: g.umac(), src: ip6s[g.rng.Intn(2)]}
+	if g.rng.Chance(70) {
+		sp.slla = g.umac()
+	}
+	for i := g.rng.Intn(3); i > 0; i-- {
+		a := [16]byte{0x20, 0x01, 0x0d, 0xb8, byte(g.rng.Intn(3)), 0, 0, 1}
+		bits := 64
+		if g.rng.Chance(40) {
+			copy(a[8:], g.rng.Bytes(8)) // host bits set: the library masks them
+			bits = []int{64, 48, 60, 3, 127, 128, 0}[g.rng.Intn(7)]
+		}
+		sp.prefixes = append(sp.prefixes, netip.PrefixFrom(netip.AddrFrom16(a), bits))
+	}
+	for i := g.rng.Intn(3); i > 0; i-- {
+		sp.rdnss = append(sp.rdnss, netip.AddrFrom16([16]byte{0x20, 0x01, 0x48, 0x60, 0x48, 0x60, 0, 0, 0, 0, 0, 0, 0, 0, 0x88, byte(g.rng.Intn(4))}))
+	}
+	for i := g.rng.Intn(3); i > 0; i-- {
+		sp.dnssl = append(sp.dnssl, [][]string{{"lan"}, {"home", "arpa"}, {"corp", "example", "com"}}[g.rng.Intn(3)])
+	}
+	if g.rng.Chance(40) {
+		a := [16]byte{0xfd, 0x00, byte(g.rng.Intn(3)), 1, 2, 3, 4, 5, 6, 7, 8, 9, 10, 11, 12, 13}
+		p := netip.PrefixFrom(netip.AddrFrom16(a), []int{0, 8, 48, 64, 96, 128}[g.rng.Intn(6)])
+		sp.route = &p
+	}
+	sp.mtu = g.rng.Bool()
+	frame, f := mkRA(sp, g.rng)
+	h.add("r:" + lib.Hex(frame) + ":" + strings.Join(f, ":"))
+}
+
+var dnsNames = [][]string{{"www", "example", "com"}, {"example", "com"}, {"cdn", "example", "net"}, {"a", "b", "example", "com"}, {"printer", "lan"}}
+
+func (h *hist) dns() {
+	g := h.g
+	q := dnsNames[g.rng.Intn(len(dnsNames))]
+	n := g.rng.Intn(4)
+	w := newDNSW(udp4Off, uint16(g.rng.Intn(65536)), 0x8180, 1, n, 0, 0)
+	compress := g.rng.Chance(70)
+	qn := w.name(q, false)
+	w.u16(1)
+	w.u16(1)
+	owner := q
+	var rrs []string
+	for i := 0; i < n; i++ {
+		switch g.rng.Intn(3) {
+		case 0:
+			nm, lo := w.rrHead(owner, 1, 1, compress)
+			off := w.base + len(w.b)
+			w.b = append(w.b, 93, 184, byte(g.rng.Intn(2)), byte(30+g.rng.Intn(3)))
+			w.rrEnd(lo)
+			rrs = append(rrs, fmt.Sprintf("a,%s,%d", nm, off))
+		case 1:
+			nm, lo := w.rrHead(owner, 28, 1, compress)
+			off := w.base + len(w.b)
+			w.b = append(w.b, 0x26, 0x06, 0x28, 0, 2, 0x20, 0, 1, 2, 0x48, 0x18, 0x93, 0x25, 0xc8, 0x19, byte(0x40+g.rng.Intn(3)))
+			w.rrEnd(lo)
+			rrs = append(rrs, fmt.Sprintf("q,%s,%d", nm, off))
+		case 2:
+			target := dnsNames[g.rng.Intn(len(dnsNames))]
+			nm, lo := w.rrHead(owner, 5, 1, compress)
+			cn := w.name(target, compress)
+			w.rrEnd(lo)
+			rrs = append(rrs, fmt.Sprintf("c,%s,%s", nm, cn))
+			owner = target
+		}
+	}
+	dst := ip4s[g.rng.Intn(len(ip4s))]
+	frame := udp4Frame(g.umac(), lib.RouterMAC, netip.MustParseAddr("8.8.8.8"), dst, 53, uint16(30000+g.rng.Intn(100)), w.b)
+	h.add("n:" + lib.Hex(frame) + ":" + qn + ":" + dash(strings.Join(rrs, ";")))
+}
+
+// mdns emits an mDNS (port 5353) or LLMNR (port 5355) query or response from a LAN host.
+func (h *hist) mdns(llmnr bool) {
+	g := h.g
+	ci := g.rng.Intn(len(macs))
+	mac, ip := macs[ci], ip4s[ci]
+	port := uint16(5353)
+	kind := "m"
+	if llmnr {
+		port, kind = 5355, "l"
+	}
+	id := uint16([]int{0, 0, 1, 7}[g.rng.Intn(4)])
+	host := []string{g.name(), "local"}
+	if strings.Contains(host[0], " ") {
+		host[0] = "delta"
+	}
+	var tok string
+	if g.rng.Chance(35) {
+		// query
+		nq := 1 + g.rng.Intn(2)
+		w := newDNSW(udp4Off, id, 0, nq, 0, 0, 0)
+		var qs []string
+		for i := 0; i < nq; i++ {
+			nm := host
+			switch g.rng.Intn(4) {
+			case 0:
+				nm = []string{"_ipp", "_tcp", "local"}
+			case 1:
+				nm = []string{"wpad"}
+			}
+			qs = append(qs, w.name(nm, g.rng.Bool()))
+			w.u16(255)
+			w.u16(1)
+		}
+		tok = fmt.Sprintf("%s:%s:F:%d:%s:-:-", kind, lib.Hex(udp4Frame(mcastMAC, mac, ip, netip.MustParseAddr("224.0.0.251"), port, port, w.b)), udp4Off, strings.Join(qs, ";"))
+	} else {
+		type rr struct{ k int }
+		var plan []int // 1 A, 28 AAAA, 16 TXT, 12 PTR
+		plan = append(plan, 1)
+		if g.rng.Bool() {
+			plan = append(plan, 28)
+		}
+		if g.rng.Bool() {
+			plan = append(plan, 16)
+		}
+		if g.rng.Bool() {
+			plan = append(plan, 12)
+		}
+		for i := len(plan) - 1; i > 0; i-- {
+			j := g.rng.Intn(i + 1)
+			plan[i], plan[j] = plan[j], plan[i]
+		}
+		w := newDNSW(udp4Off, id, 0x8400, 0, len(plan), 0, 0)
+		compress := g.rng.Chance(70)
+		var as4, as6 []string
+		model := "-"
+		for _, k := range plan {
+			switch k {
+			case 1:
+				nm, lo := w.rrHead(host, 1, 0x8001, compress)
+				off := w.base + len(w.b)
+				a := ip.As4()
+				if g.rng.Chance(15) {
+					a = ip4s[g.rng.Intn(len(ip4s))].As4()
+				}
+				w.b = append(w.b, a[:]...)
+				w.rrEnd(lo)
+				as4 = append(as4, fmt.Sprintf("%s,%d,4", nm, off))
+			case 28:
+				nm, lo := w.rrHead(host, 28, 0x8001, compress)
+				off := w.base + len(w.b)
+				a := ip6s[g.rng.Intn(len(ip6s))].As16()
+				w.b = append(w.b, a[:]...)
+				w.rrEnd(lo)
+				as6 = append(as6, fmt.Sprintf("%s,%d,16", nm, off))
+			case 16:
+				_, lo := w.rrHead([]string{host[0], "_device-info", "_tcp", "local"}, 16, 0x8001, compress)
+				mv := []string{"MacBookPro14,1", "J105aAP", "Chromecast"}[g.rng.Intn(3)]
+				key := []string{"model", "md", "ty"}[g.rng.Intn(3)]
+				strs := []string{"osxvers=20", key + "=" + mv, "ecolor=157,157,160"}
+				if g.rng.Chance(20) {
+					strs = strs[:2] // two strings only: parseTXT ignores the record
+				}
+				for _, s := range strs {
+					w.b = append(w.b, byte(len(s)))
+					if strings.HasPrefix(s, key+"=") && len(strs) > 2 {
+						model = loc(w.base+len(w.b)+len(key)+1, len(mv))
+					}
+					w.b = append(w.b, s...)
+				}
+				w.rrEnd(lo)
+			case 12:
+				_, lo := w.rrHead([]string{"_device-info", "_tcp", "local"}, 12, 1, compress)
+				w.name([]string{host[0], "_device-info", "_tcp", "local"}, compress)
+				w.rrEnd(lo)
+			}
+		}
+		tok = fmt.Sprintf("%s:%s:T:%d:-:%s:%s", kind, lib.Hex(udp4Frame(mcastMAC, mac, ip, netip.MustParseAddr("224.0.0.251"), port, port, w.b)), udp4Off,
+			dash(strings.Join(append(as4, as6...), ";")), model)
+	}
+	h.add(tok)
+}
+
+func (h *hist) nbns() {
+	g := h.g
+	ci := g.rng.Intn(len(macs))
+	mac, ip := macs[ci], ip4s[ci]
+	w := newDNSW(udp4Off, uint16(g.rng.Intn(65536)), 0x8400, 0, 1, 0, 0)
+	// RR name: 0x20 + 32 half-ascii bytes of "*" + 15 NULs
+	w.b = append(w.b, 0x20, 'C', 'K')
+	for i := 0; i < 30; i++ {
+		w.b = append(w.b, 'A')
+	}
+	w.b = append(w.b, 0)
+	w.u16(0x21)
+	w.u16(1)
+	w.u32(0)
+	w.u16(0)
+	lo := len(w.b) - 2
+	names := []string{"WORKSTATION-1", "ALPHA", "MYPC", "X"}
+	nm := names[g.rng.Intn(len(names))]
+	n := 1 + g.rng.Intn(3)
+	w.b = append(w.b, byte(n))
+	nameOff := w.base + len(w.b)
+	suffix := []byte{0x00, 0x20, 0x03}[g.rng.Intn(3)]
+	first := make([]byte, 0, 16)
+	for i := 0; i < n; i++ {
+		e := []byte(fmt.Sprintf("%-15s", nm))
+		e = append(e, suffix)
+		flags := []byte{0x04, 0x00}
+		if i > 0 && g.rng.Bool() {
+			e = append([]byte(fmt.Sprintf("%-15s", "WORKGROUP")), 0x00)
+			flags = []byte{0x84, 0x00}
+		}
+		if i == 0 {
+			first = append(first, e...)
+		}
+		w.b = append(w.b, e...)
+		w.b = append(w.b, flags...)
+	}
+	w.b = append(w.b, make([]byte, 46)...) // statistics
+	w.rrEnd(lo)
+	// length of the first name after TrimRight("\x00") then TrimRight(" ")
+	tl := 16
+	for tl > 0 && first[tl-1] == 0 {
+		tl--
+	}
+	for tl > 0 && first[tl-1] == ' ' {
+		tl--
+	}
+	frame := udp4Frame(lib.HostMAC, mac, ip, lib.HostIP4, 137, 137, w.b)
+	h.add("b:" + lib.Hex(frame) + ":" + loc(nameOff, tl))
+}
+
+func (h *hist) ssdp() {
+	g := h.g
+	ci := g.rng.Intn(len(macs))
+	mac, ip := macs[ci], ip4s[ci]
+	uas := []struct{ ua, model, manuf, os string }{
+		{"Chromium/74.0.3729.131 Linux", "", "", "Linux"},
+		{"My App/4 (iPhone; iOS 12.4) CocoaSSDP/0.1.0/1", "iPhone", "Apple, Inc.", "iOS"},
+		{"Microsoft Edge/91.0.864.64 Windows", "", "", "Windows"},
+		{"Foo (iPad)", "iPad", "Apple, Inc.", ""},
+		{"unknown/1.0", "", "", ""},
+	}
+	u := uas[g.rng.Intn(len(uas))]
+	var msg string
+	tok := ""
+	if g.rng.Chance(75) {
+		msg = "M-SEARCH * HTTP/1.1\r\nHOST: 239.255.255.250:1900\r\nMAN: \"ssdp:discover\"\r\nMX: 1\r\nST: ssdp:all\r\nUSER-AGENT: " + u.ua + "\r\n\r\n"
+		tok = ":" + lib.Hex([]byte(u.model)) + ":" + lib.Hex([]byte(u.manuf)) + ":" + lib.Hex([]byte(u.os))
+	} else {
+		msg = "NOTIFY * HTTP/1.1\r\nHOST: 239.255.255.250:1900\r\nCACHE-CONTROL: max-age=1800\r\nLOCATION: http://192.168.0.5:80/desc.xml\r\nNT: upnp:rootdevice\r\nNTS: ssdp:alive\r\nSERVER: x\r\nUSN: uuid:1\r\n\r\n"
+		tok = ":-:-:-"
+	}
+	frame := udp4Frame(net.HardwareAddr{0x01, 0x00, 0x5e, 0x7f, 0xff, 0xfa}, mac, ip, netip.MustParseAddr("239.255.255.250"), uint16(40000+g.rng.Intn(100)), 1900, []byte(msg))
+	h.add("s:" + lib.Hex(frame) + tok)
+}
+
+// history of a given flavour: weights of the operation classes
+func (g *gen) history(depth int, w [8]int) []string {
+	h := g.newHist()
+	total := 0
+	for _, x := range w {
+		total += x
+	}
+	for i := 0; i < depth; i++ {
+		c := g.rng.Intn(total)
+		k := 0
+		for c >= w[k] {
+			c -= w[k]
+			k++
+		}
+		switch k {
+		case 0:
+			h.plain()
+		case 1:
+			h.control()
+		case 2:
+			h.dhcp()
+		case 3:
+			h.ra()
+		case 4:
+			h.dns()
+		case 5:
+			h.mdns(g.rng.Chance(30))
+		case 6:
+			h.nbns()
+		case 7:
+			h.ssdp()
+		}
+	}
+	return h.done()
+}
+
+// tableHistory: small ARP-only histories (<= 400 characters: eligible for in-kernel replay)
+func (g *gen) miniHistory(depth int) []string {
 	f, s := g.scribble()
 	toks := []string{f, s}
 	for i := 0; i < depth; i++ {
@@ -131,12 +631,10 @@ func (g *gen) tableHistory(depth int, arpOnly bool) []string {
 			toks = append(toks, "q")
 		case c < 16:
 			toks = append(toks, g.purgeTok())
-		case arpOnly || c < 50:
-			toks = append(toks, "p:"+lib.Hex(g.arp()))
-		case c < 75:
-			toks = append(toks, "p:"+lib.Hex(g.ip4frame()))
+		case c < 24:
+			toks = append(toks, "o:"+g.anyKey())
 		default:
-			toks = append(toks, "p:"+lib.Hex(g.ip6frame()))
+			toks = append(toks, "p:"+lib.Hex(g.arp()))
 		}
 	}
 	return toks
@@ -144,17 +642,31 @@ func (g *gen) tableHistory(depth int, arpOnly bool) []string {
 
 func generate(r *lib.Run) {
 	g := &gen{rng: r.Rand()}
-	nMini, nHist := 300, 400
+	scale := 1
 	if r.Thorough() {
-		nMini, nHist = 2000, 6000
+		scale = 12
 	}
-	// small cases (<= 400 characters: eligible for in-kernel replay)
-	for i := 0; i < nMini; i++ {
-		r.Do("h", g.tableHistory(1+g.rng.Intn(4), true)...)
+	for i := 0; i < 300*scale; i++ {
+		r.Do("h", g.miniHistory(1+g.rng.Intn(4))...)
 		r.Stat("class.mini", 1)
 	}
-	for i := 0; i < nHist; i++ {
-		r.Do("h", g.tableHistory(30+g.rng.Intn(31), false)...)
-		r.Stat("class.tables", 1)
+	classes := []struct {
+		name  string
+		n     int
+		depth int
+		w     [8]int
+	}{
+		{"tables", 150, 40, [8]int{80, 20, 0, 0, 0, 0, 0, 0}},
+		{"dhcp", 120, 30, [8]int{20, 15, 65, 0, 0, 0, 0, 0}},
+		{"ra", 80, 25, [8]int{25, 15, 0, 60, 0, 0, 0, 0}},
+		{"dns", 80, 25, [8]int{20, 10, 0, 0, 70, 0, 0, 0}},
+		{"names", 120, 30, [8]int{25, 15, 0, 0, 0, 35, 15, 10}},
+		{"mixed", 150, 45, [8]int{25, 12, 25, 8, 8, 12, 5, 5}},
+	}
+	for _, c := range classes {
+		for i := 0; i < c.n*scale; i++ {
+			r.Do("h", g.history(c.depth/2+g.rng.Intn(c.depth), c.w)...)
+			r.Stat("class."+c.name, 1)
+		}
 	}
 }
